@@ -1,7 +1,7 @@
 (* C11 extension: case interpreter for the correspondence check of the extension models
    (ops 0..25 are interpreted by Model.run_case).  Definitions only. *)
 From ZV.Common Require Import Base Run.
-From ZV.C11 Require Import Model ModelMsd ModelAdv ModelPar ModelSkip ModelMultipass ModelFunnel ModelKv.
+From ZV.C11 Require Import Model ModelMsd ModelAdv ModelPar ModelSkip ModelMultipass ModelFunnel ModelKv ModelCoAware.
 Open Scope N_scope.
 
 (* a list of byte strings as one list: length, bytes, length, bytes, ... *)
@@ -51,5 +51,6 @@ Definition run_case_x (op : N) (ps : list N) (ins : list (list N)) : list N :=
           | None => [0]
           end
   | 40 => adv_sort_int (N.to_nat (nth_p 0 ps)) isort (cfg_of (tl ps)) a
+  | 41 => co_full_sort (N.to_nat (nth_p 0 ps)) (nth_p 1 ps) (nth_p 2 ps) (nth_p 3 ps) (nth_p 4 ps) (nth_p 5 ps) a
   | _ => run_case op ps ins
   end.
